@@ -471,7 +471,12 @@ class UpdateColumns(SchemaOp):
             inner.name = f"update_dict[{col!r}]"
             for p in keys:
                 if p in ctor_params(C) or p == "name":
-                    inner[p] = T.fresh_value(kwarg_type(p), f"update[{col}][{p}]") if p != "name" else "new_name"
+                    if p != "name":
+                        inner[p] = T.fresh_value(kwarg_type(p), f"update[{col}][{p}]")
+                    else:
+                        # any attempt to set the name is refused - also a falsy one (0 and "" are legitimate column labels)
+                        names = ["new_name", "", 0, None]
+                        inner[p] = names[cur().choose([(repr(n), None) for n in names], "requested name")]
             d[col] = inner
         return {"self": self.receiver(), "update_dict": d}
 
